@@ -1,5 +1,5 @@
 import XmppVerif.Drv.Core
-import XmppVerif.Drv.C01
+import XmppVerif.Drv.C01Schema
 import XmppVerif.Drv.C02
 import XmppVerif.Drv.Recv
 import XmppVerif.Drv.Neg
@@ -22,7 +22,7 @@ import XmppVerif.Drv.C20
 open XmppVerif.Drv
 
 def handlers : List (String × Handler) := [
-  ("C01", XmppVerif.Drv.C01.handler),
+  ("C01", XmppVerif.Drv.C01S.handler),
   ("C02", XmppVerif.Drv.C02.handler),
   ("C03", XmppVerif.Drv.Neg.handlerC03),
   ("C04", XmppVerif.Drv.Neg.handlerC04),
